@@ -68,7 +68,9 @@ structure InvB2 (a : ACfg) (s : St) : Prop where
   ub : (∃ k, s.cpc = .user k) ∨ s.cpc = .aborted → a.hasCb = true ∧ ∃ k0, a.cbBeh = .await k0
   ph : mon2Run s.trace2 = phase2 a s
 
-structure InvS (a : ACfg) (s : St) : Prop where
+/-- `strict = false`: the state between the closer's last inner step and the return of a `close()` awaited from the message callback
+    (`finishClose`: `cpc = finished` while `D2` is still `inSoup`); every state at the end of an event satisfies `InvS = InvSg true` -/
+structure InvSg (strict : Bool) (a : ACfg) (s : St) : Prop where
   nb : s.built = false → ∀ t, s.astatus t = .absent
   we : ∀ t, s.astatus t = .waitE → s.evt = some false
   wv : ∀ t, s.astatus t = .waitV → alive2 (s.astatus .V2) = true ∧ ∃ u, t = .W u
@@ -80,10 +82,17 @@ structure InvS (a : ACfg) (s : St) : Prop where
   hc : ∀ v, s.aprog .D2 = .handlerClose v → alive2 (s.astatus .D2) = true → a.msgBeh v = .close ∨ ∃ k, a.msgBeh v = .awaitClose k
   can : s.astatus .D2 = .cancelled → s.cpc = .waitD2
   v2 : s.cpc = .waitV2 → s.astatus .V2 = .cancelled ∨ alive2 (s.astatus .V2) = false
-  dn : s.built = true → (s.cpc = .waitV2 ∨ lateStage s.cpc = true) → alive2 (s.astatus .D2) = false ∧ s.disp2Set = false
+  dn : s.built = true → (s.cpc = .waitV2 ∨ lateStage s.cpc = true) →
+        (alive2 (s.astatus .D2) = false ∨ s.astatus .D2 = .inSoup) ∧ s.disp2Set = false
   vn : s.built = true → lateStage s.cpc = true → alive2 (s.astatus .V2) = false
-  da : alive2 (s.astatus .D2) = true → s.disp2Set = true
+  da : alive2 (s.astatus .D2) = true → s.astatus .D2 ≠ .inSoup → s.disp2Set = true
   vs : s.astatus .V2 ≠ .waitE
+  dnf : strict = true → s.built = true → s.cpc = .finished → alive2 (s.astatus .D2) = false
+  ip : ∀ t, s.astatus t = .inSoup → t = .D2 ∧ ((∃ v, s.aprog .D2 = .handlerClose v) ∨ ∃ v, s.aprog .D2 = .cleanupClose v)
+  ds : s.astatus .D2 ≠ .waitE
+  hs : ∀ v, s.aprog .D2 = .handlerClose v ∨ s.aprog .D2 = .cleanupClose v → alive2 (s.astatus .D2) = true → s.astatus .D2 = .inSoup
+
+abbrev InvS := InvSg true
 
 /-! ### frames -/
 
@@ -114,11 +123,11 @@ theorem InvB2.of_core {a : ACfg} {s s' : St} (h : bcore2 s' = bcore2 s) (i : Inv
 def score (s : St) : (ATid → AStatus) × (ATid → AProg) × CPc × Bool × Option Bool × Bool :=
   (s.astatus, s.aprog, s.cpc, s.built, s.evt, s.disp2Set)
 
-theorem InvS.of_core {a : ACfg} {s s' : St} (h : score s' = score s) (i : InvS a s) : InvS a s' := by
+theorem InvS.of_core {st : Bool} {a : ACfg} {s s' : St} (h : score s' = score s) (i : InvSg st a s) : InvSg st a s' := by
   simp only [score, Prod.mk.injEq] at h
   obtain ⟨h1, h2, h3, h4, h5, h6⟩ := h
-  obtain ⟨nb, we, wv, ty, wq, d2, cc, hc, can, v2, dn, vn, da, vs⟩ := i
-  refine ⟨?_, ?_, ?_, ?_, ?_, ?_, ?_, ?_, ?_, ?_, ?_, ?_, ?_, ?_⟩
+  obtain ⟨nb, we, wv, ty, wq, d2, cc, hc, can, v2, dn, vn, da, vs, dnf, ip, ds, hs⟩ := i
+  refine ⟨?_, ?_, ?_, ?_, ?_, ?_, ?_, ?_, ?_, ?_, ?_, ?_, ?_, ?_, ?_, ?_, ?_, ?_⟩
   · rw [h1, h4]; exact nb
   · rw [h1, h5]; exact we
   · rw [h1]; exact wv
@@ -133,10 +142,14 @@ theorem InvS.of_core {a : ACfg} {s s' : St} (h : score s' = score s) (i : InvS a
   · rw [h1, h3, h4]; exact vn
   · rw [h1, h6]; exact da
   · rw [h1]; exact vs
+  · rw [h1, h3, h4]; exact dnf
+  · rw [h1, h2]; exact ip
+  · rw [h1]; exact ds
+  · rw [h1, h2]; exact hs
 
 @[simp] theorem score_emit2 (s : St) (o : AObs) : score (s.emit2 o) = score s := rfl
 
-theorem InvS.emit2 {a : ACfg} {s : St} {o : AObs} (i : InvS a s) : InvS a (s.emit2 o) := InvS.of_core (s := s) rfl i
+theorem InvS.emit2 {st : Bool} {a : ACfg} {s : St} {o : AObs} (i : InvSg st a s) : InvSg st a (s.emit2 o) := InvS.of_core (s := s) rfl i
 
 /-- an application observable the monitor ignores -/
 def neutral2 (o : AObs) : Bool :=
@@ -155,19 +168,19 @@ theorem InvB2.emit2 {a : ACfg} {s : St} {o : AObs} (h : neutral2 o = true) (i : 
 
 /-! ### `_on_soup_message` wakes a waiting getter; an inner step moves no flag of the application layer -/
 
-theorem InvS.wake2 {a : ACfg} {s : St} (i : InvS a s) (t : ATid) : InvS a (s.wake2 t) := by
+theorem InvS.wake2 {st : Bool} {a : ACfg} {s : St} (i : InvSg st a s) (t : ATid) : InvSg st a (s.wake2 t) := by
   unfold St.wake2
   split
   · rename_i hw
-    obtain ⟨nb, we, wv, ty, wq, d2, cc, hc, can, v2, dn, vn, da, vs⟩ := i
-    refine ⟨?_, ?_, ?_, ?_, ?_, ?_, ?_, ?_, ?_, ?_, ?_, ?_, ?_, ?_⟩ <;> simp only [St.setA] <;> grind [alive2]
+    obtain ⟨nb, we, wv, ty, wq, d2, cc, hc, can, v2, dn, vn, da, vs, dnf, ip, ds, hs⟩ := i
+    refine ⟨?_, ?_, ?_, ?_, ?_, ?_, ?_, ?_, ?_, ?_, ?_, ?_, ?_, ?_, ?_, ?_, ?_, ?_⟩ <;> simp only [St.setA] <;> grind [alive2]
   · exact i
 
 theorem bcore2_wake2 (s : St) (t : ATid) : bcore2 (s.wake2 t) = bcore2 s := by
   unfold St.wake2; split <;> rfl
 
-theorem put2_K {a : ACfg} {s : St} (v : Nat) (ib : InvB2 a s) (is : InvS a s) :
-    InvB2 a (s.put2 v) ∧ InvS a (s.put2 v) := by
+theorem put2_K {st : Bool} {a : ACfg} {s : St} (v : Nat) (ib : InvB2 a s) (is : InvSg st a s) :
+    InvB2 a (s.put2 v) ∧ InvSg st a (s.put2 v) := by
   unfold St.put2
   constructor
   · refine InvB2.of_core ?_ ib
@@ -176,14 +189,14 @@ theorem put2_K {a : ACfg} {s : St} (v : Nat) (ib : InvB2 a s) (is : InvS a s) :
     apply InvS.wake2
     exact InvS.of_core (s := s) rfl is
 
-theorem feed_K {a : ACfg} (ns : List Nat) {s : St} (ib : InvB2 a s) (is : InvS a s) :
-    InvB2 a (feed a s ns) ∧ InvS a (feed a s ns) := by
+theorem feed_K {st : Bool} {a : ACfg} (ns : List Nat) {s : St} (ib : InvB2 a s) (is : InvSg st a s) :
+    InvB2 a (feed a s ns) ∧ InvSg st a (feed a s ns) := by
   induction ns generalizing s with
   | nil => exact ⟨ib, is⟩
   | cons n ns ih =>
     have e : feed a s (n :: ns) = feed a (feed1 a s n) ns := rfl
     rw [e]
-    have h1 : InvB2 a (feed1 a s n) ∧ InvS a (feed1 a s n) := by
+    have h1 : InvB2 a (feed1 a s n) ∧ InvSg st a (feed1 a s n) := by
       unfold feed1
       split
       · exact put2_K _ ib is
@@ -211,8 +224,8 @@ theorem innerStep_eq (a : ACfg) (s : St) (e : Sess.Ev) :
       (entered ((Sess.step (innerCfg a) s.inner e).trace.drop s.inner.trace.length)) := rfl
 
 /-- an inner step keeps the flag and task invariants (the stage synchronisation is the business of the callers) -/
-theorem innerStep_K {a : ACfg} {s : St} (e : Sess.Ev) (ib : InvB2 a s) (is : InvS a s) :
-    InvB2 a (innerStep a s e) ∧ InvS a (innerStep a s e) := by
+theorem innerStep_K {st : Bool} {a : ACfg} {s : St} (e : Sess.Ev) (ib : InvB2 a s) (is : InvSg st a s) :
+    InvB2 a (innerStep a s e) ∧ InvSg st a (innerStep a s e) := by
   have hb0 : InvB2 a (innerPart a s e) := by
     obtain ⟨b, tc, bu, q, q', ac1, ac2, ac3, ev1, ev2, ev0, ub, ph⟩ := ib
     refine ⟨?_, ?_, bu, q, q', ac1, ac2, ac3, ev1, ev2, ev0, ub, ?_⟩
@@ -225,7 +238,7 @@ theorem innerStep_K {a : ACfg} {s : St} (e : Sess.Ev) (ib : InvB2 a s) (is : Inv
         trace2_tr_inner { s with inner := Sess.step (innerCfg a) s.inner e } _
       unfold phase2
       rw [this]; exact ph
-  have hs0 : InvS a (innerPart a s e) := InvS.of_core (s := s) rfl is
+  have hs0 : InvSg st a (innerPart a s e) := InvS.of_core (s := s) rfl is
   rw [innerStep_eq]
   exact feed_K _ hb0 hs0
 
@@ -259,37 +272,114 @@ structure PreC (a : ACfg) (s : St) : Prop where
   wq : ∀ t, s.astatus t = .waitQ → t = .D2 ∨ t = .V2
   cc : ∀ v, s.aprog .D2 = .cleanupClose v → alive2 (s.astatus .D2) = true → a.closedFirst = false
   hc : ∀ v, s.aprog .D2 = .handlerClose v → alive2 (s.astatus .D2) = true → a.msgBeh v = .close ∨ ∃ k, a.msgBeh v = .awaitClose k
-  da : alive2 (s.astatus .D2) = true → s.disp2Set = true
+  da : alive2 (s.astatus .D2) = true → s.astatus .D2 ≠ .inSoup → s.disp2Set = true
   vs : s.astatus .V2 ≠ .waitE
+  ip : ∀ t, s.astatus t = .inSoup → t = .D2 ∧ ((∃ v, s.aprog .D2 = .handlerClose v) ∨ ∃ v, s.aprog .D2 = .cleanupClose v)
+  ds : s.astatus .D2 ≠ .waitE
+  hs : ∀ v, s.aprog .D2 = .handlerClose v ∨ s.aprog .D2 = .cleanupClose v → alive2 (s.astatus .D2) = true → s.astatus .D2 = .inSoup
+
+/-- `D2` is out of the way of `queue.stop()`: it has ended, or it is the closer itself (`stop_task` skips the current task) -/
+def d2Out (s : St) : Prop := alive2 (s.astatus .D2) = false ∨ s.astatus .D2 = .inSoup
 
 /-- the flag and task invariants at the state in which the closer is about to return from `_on_soup_close`
     (`cpc := finished`, event set): what `finishClose` needs -/
-theorem finished_K {a : ACfg} {s : St} (p : PreC a s) (hD : alive2 (s.astatus .D2) = false) (hds : s.disp2Set = false)
+theorem finished_K {a : ACfg} {s : St} (p : PreC a s) (hD : alive2 (s.astatus .D2) = false ∨ s.astatus .D2 = .inSoup) (hds : s.disp2Set = false)
     (hV : alive2 (s.astatus .V2) = false) (hac : s.appClosed = true)
     (hph : mon2Run s.trace2 = if a.hasCb then 2 else 0) :
-    InvB2 a { s.setEvent with cpc := .finished } ∧ InvS a { s.setEvent with cpc := .finished } := by
-  obtain ⟨built, qc, cl, tc, ev, cf, we, wv, ty, wq, cc, hc, da, vs⟩ := p
+    InvB2 a { s.setEvent with cpc := .finished } ∧ InvSg false a { s.setEvent with cpc := .finished } := by
+  obtain ⟨built, qc, cl, tc, ev, cf, we, wv, ty, wq, cc, hc, da, vs, ip, ds, hs⟩ := p
   have hph' : mon2Run ({ s.setEvent with cpc := .finished } : St).trace2 = phase2 a { s.setEvent with cpc := .finished } := by
     show mon2Run s.setEvent.trace2 = _
     rw [trace2_setEvent, hph]
     simp [phase2, built]
+  have hip' : ∀ t, ({ s.setEvent with cpc := .finished } : St).astatus t = .inSoup →
+      t = .D2 ∧ ((∃ v, ({ s.setEvent with cpc := .finished } : St).aprog .D2 = .handlerClose v) ∨
+        ∃ v, ({ s.setEvent with cpc := .finished } : St).aprog .D2 = .cleanupClose v) := by
+    intro t ht
+    have ha : s.setEvent.aprog = s.aprog := by unfold St.setEvent; split <;> rfl
+    have hs : s.astatus t = .inSoup := by
+      revert ht
+      show s.setEvent.astatus t = _ → _
+      unfold St.setEvent
+      split
+      · simp only
+        split
+        · intro h; cases h
+        · exact id
+      · exact id
+    show t = .D2 ∧ ((∃ v, s.setEvent.aprog .D2 = _) ∨ ∃ v, s.setEvent.aprog .D2 = _)
+    rw [ha]; exact ip t hs
   constructor
   · refine ⟨?_, ?_, ?_, ?_, ?_, ?_, ?_, ?_, ?_, ?_, ?_, ?_, hph'⟩ <;> unfold St.setEvent <;> grind [midStage, lateStage]
-  · refine ⟨?_, ?_, ?_, ?_, ?_, ?_, ?_, ?_, ?_, ?_, ?_, ?_, ?_, ?_⟩ <;> unfold St.setEvent <;> grind [midStage, lateStage, alive2]
+  · refine ⟨?_, ?_, ?_, ?_, ?_, ?_, ?_, ?_, ?_, ?_, ?_, ?_, ?_, ?_, ?_, hip', ?_, ?_⟩ <;> unfold St.setEvent <;> grind [midStage, lateStage, alive2]
 
+
+theorem feed_cpcK (a : ACfg) (ns : List Nat) (s1 : St) : (feed a s1 ns).cpc = s1.cpc := by
+  induction ns generalizing s1 with
+  | nil => rfl
+  | cons n ns ih =>
+    show (feed a (feed1 a s1 n) ns).cpc = s1.cpc
+    rw [ih]
+    unfold feed1
+    split
+    · unfold St.put2 St.wake2; split <;> split <;> rfl
+    · rfl
+
+theorem innerStep_fields2K (a : ACfg) (s : St) (e : Sess.Ev) : (innerStep a s e).cpc = s.cpc := by
+  rw [innerStep_eq, feed_cpcK]; rfl
+
+/-- `soup_session.close()` has returned to the message callback: the callback goes on and — the queue being stopped — the second
+    dispatcher ends in the same step -/
+theorem d2Return_K {a : ACfg} {s : St} (ib : InvB2 a s) (is : InvSg false a s) (hc : s.cpc = .finished) :
+    InvB2 a (d2Return s) ∧ InvS a (d2Return s) := by
+  unfold d2Return
+  split
+  · rename_i hin
+    have hb : s.built = true := by
+      cases hb : s.built with
+      | true => rfl
+      | false => have := is.nb hb .D2; rw [hin] at this; contradiction
+    have hq : s.q2Closed = true := ib.q hb (by rw [hc]; simp)
+    have hip := (is.ip .D2 hin).2
+    split
+    · rename_i v hp
+      rw [if_pos hq]
+      refine ⟨InvB2.of_core (s := (s.emit2 (.closeRet (.handler v) .ok)).emit2 (.msgExit v)) rfl ((ib.emit2 rfl).emit2 rfl), ?_⟩
+      obtain ⟨nb, we, wv, ty, wq, d2, cc, hc', can, v2, dn, vn, da, vs, dnf, ip, ds, hs⟩ := is
+      refine ⟨?_, ?_, ?_, ?_, ?_, ?_, ?_, ?_, ?_, ?_, ?_, ?_, ?_, ?_, ?_, ?_, ?_, ?_⟩ <;> simp only [St.finish2, St.emit2] <;>
+        grind [midStage, lateStage, alive2]
+    · rename_i v hp
+      refine ⟨InvB2.of_core (s := (s.emit2 (.closeRet (.handler v) .ok)).emit2 (.msgAbandon v)) rfl ((ib.emit2 rfl).emit2 rfl), ?_⟩
+      obtain ⟨nb, we, wv, ty, wq, d2, cc, hc', can, v2, dn, vn, da, vs, dnf, ip, ds, hs⟩ := is
+      refine ⟨?_, ?_, ?_, ?_, ?_, ?_, ?_, ?_, ?_, ?_, ?_, ?_, ?_, ?_, ?_, ?_, ?_, ?_⟩ <;> simp only [St.finish2, St.emit2] <;>
+        grind [midStage, lateStage, alive2]
+    · rename_i h1 h2
+      rcases hip with ⟨v, hv⟩ | ⟨v, hv⟩
+      · exact absurd hv (h1 v)
+      · exact absurd hv (h2 v)
+  · rename_i hin
+    refine ⟨ib, ?_⟩
+    have hb0 := is.dn
+    obtain ⟨nb, we, wv, ty, wq, d2, cc, hc', can, v2, dn, vn, da, vs, dnf, ip, ds, hs⟩ := is
+    refine ⟨nb, we, wv, ty, wq, d2, cc, hc', can, v2, dn, vn, da, vs, ?_, ip, ds, hs⟩
+    intro _ hb hcf
+    rcases (hb0 hb (Or.inr (by rw [hcf]; rfl))).1 with h | h
+    · exact h
+    · exact absurd h hin
 
 theorem PreC.emit2 {a : ACfg} {s : St} (p : PreC a s) (o : AObs) : PreC a (s.emit2 o) := by
-  obtain ⟨built, qc, cl, tc, ev, cf, we, wv, ty, wq, cc, hc, da, vs⟩ := p
-  exact ⟨built, qc, cl, tc, ev, cf, we, wv, ty, wq, cc, hc, da, vs⟩
+  obtain ⟨built, qc, cl, tc, ev, cf, we, wv, ty, wq, cc, hc, da, vs, ip, ds, hs⟩ := p
+  exact ⟨built, qc, cl, tc, ev, cf, we, wv, ty, wq, cc, hc, da, vs, ip, ds, hs⟩
 
-theorem finishClose_K {a : ACfg} {s : St} (t : Sess.Tid) (p : PreC a s) (hD : alive2 (s.astatus .D2) = false)
+theorem finishClose_K {a : ACfg} {s : St} (t : Sess.Tid) (p : PreC a s) (hD : alive2 (s.astatus .D2) = false ∨ s.astatus .D2 = .inSoup)
     (hds : s.disp2Set = false) (hV : alive2 (s.astatus .V2) = false) (hac : s.appClosed = true)
     (hph : mon2Run s.trace2 = if a.hasCb then 2 else 0) :
     InvB2 a (finishClose a s.setEvent t) ∧ InvS a (finishClose a s.setEvent t) := by
   obtain ⟨h1, h2⟩ := finished_K p hD hds hV hac hph
-  exact innerStep_K _ h1 h2
+  obtain ⟨h3, h4⟩ := innerStep_K (.run t) h1 h2
+  exact d2Return_K h3 h4 (by rw [innerStep_fields2K])
 
-theorem endCb_K {a : ACfg} {s : St} (t : Sess.Tid) (p : PreC a s) (hD : alive2 (s.astatus .D2) = false)
+theorem endCb_K {a : ACfg} {s : St} (t : Sess.Tid) (p : PreC a s) (hD : alive2 (s.astatus .D2) = false ∨ s.astatus .D2 = .inSoup)
     (hds : s.disp2Set = false) (hV : alive2 (s.astatus .V2) = false) (hac : s.appClosed = true)
     (hcb : a.hasCb = true) (hph : mon2Run s.trace2 = 1) :
     InvB2 a (endCb a s t) ∧ InvS a (endCb a s t) := by
@@ -298,13 +388,13 @@ theorem endCb_K {a : ACfg} {s : St} (t : Sess.Tid) (p : PreC a s) (hD : alive2 (
   rw [trace2_emit2, mon2Run_append, hph, hcb]
   rfl
 
-theorem afterStop_K {a : ACfg} {s : St} (t : Sess.Tid) (p : PreC a s) (hD : alive2 (s.astatus .D2) = false)
+theorem afterStop_K {a : ACfg} {s : St} (t : Sess.Tid) (p : PreC a s) (hD : alive2 (s.astatus .D2) = false ∨ s.astatus .D2 = .inSoup)
     (hds : s.disp2Set = false) (hV : alive2 (s.astatus .V2) = false) (hph : mon2Run s.trace2 = 0) :
     InvB2 a (afterStop a s t) ∧ InvS a (afterStop a s t) := by
   unfold afterStop
   have p1 : PreC a { s with appClosed := true } := by
-    obtain ⟨built, qc, cl, tc, ev, cf, we, wv, ty, wq, cc, hc, da, vs⟩ := p
-    exact ⟨built, qc, cl, tc, ev, fun _ => rfl, we, wv, ty, wq, cc, hc, da, vs⟩
+    obtain ⟨built, qc, cl, tc, ev, cf, we, wv, ty, wq, cc, hc, da, vs, ip, ds, hs⟩ := p
+    exact ⟨built, qc, cl, tc, ev, fun _ => rfl, we, wv, ty, wq, cc, hc, da, vs, ip, ds, hs⟩
   simp only
   split
   · rename_i hcb
@@ -320,12 +410,12 @@ theorem afterStop_K {a : ACfg} {s : St} (t : Sess.Tid) (p : PreC a s) (hD : aliv
     split
     · -- the user's close callback suspends
       rename_i k hk
-      obtain ⟨built, qc, cl, tc, ev, cf, we, wv, ty, wq, cc, hc, da, vs⟩ := p
+      obtain ⟨built, qc, cl, tc, ev, cf, we, wv, ty, wq, cc, hc, da, vs, ip, ds, hs⟩ := p
       have hph' : mon2Run ({ (({ s with appClosed := true } : St).emit2 .cbEnter) with cpc := .user k } : St).trace2
           = phase2 a { (({ s with appClosed := true } : St).emit2 .cbEnter) with cpc := .user k } := hph1
       constructor
       · refine ⟨?_, ?_, ?_, ?_, ?_, ?_, ?_, ?_, ?_, ?_, ?_, ?_, hph'⟩ <;> simp only [St.emit2] <;> grind [midStage, lateStage]
-      · refine ⟨?_, ?_, ?_, ?_, ?_, ?_, ?_, ?_, ?_, ?_, ?_, ?_, ?_, ?_⟩ <;> simp only [St.emit2] <;> grind [midStage, lateStage, alive2]
+      · refine ⟨?_, ?_, ?_, ?_, ?_, ?_, ?_, ?_, ?_, ?_, ?_, ?_, ?_, ?_, ?_, ?_, ?_, ?_⟩ <;> simp only [St.emit2] <;> grind [midStage, lateStage, alive2]
     · refine endCb_K t ((p1.emit2 _).emit2 _) hD hds hV rfl hcb' ?_
       rw [trace2_emit2, mon2Run_append, hph1]; rfl
     · exact endCb_K t (p1.emit2 _) hD hds hV rfl hcb' hph1
@@ -339,13 +429,14 @@ theorem bcore2_cancel2 (s : St) (t : ATid) : bcore2 (s.cancel2 t) = bcore2 s := 
   split <;> rfl
 
 /-- cancelling a live task that is not awaiting the helper: it is runnable with the cancellation pending -/
-theorem cancel2_alive (s : St) (t : ATid) (h : alive2 (s.astatus t) = true) (hv : s.astatus t ≠ .waitV) :
-    s.cancel2 t = s.setA t .cancelled := by
+theorem cancel2_alive (s : St) (t : ATid) (h : alive2 (s.astatus t) = true) (hv : s.astatus t ≠ .waitV)
+    (hi : s.astatus t ≠ .inSoup) : s.cancel2 t = s.setA t .cancelled := by
   unfold St.cancel2
   cases hs : s.astatus t with
   | absent => rw [hs] at h; simp [alive2] at h
   | done => rw [hs] at h; simp [alive2] at h
   | waitV => exact absurd hs hv
+  | inSoup => exact absurd hs hi
   | cancelled =>
     simp only
     cases s
@@ -356,23 +447,25 @@ theorem cancel2_alive (s : St) (t : ATid) (h : alive2 (s.astatus t) = true) (hv 
     · rfl
   | _ => rfl
 
-theorem stopV2_K {a : ACfg} {s : St} (t : Sess.Tid) (p : PreC a s) (hD : alive2 (s.astatus .D2) = false)
+theorem stopV2_K {a : ACfg} {s : St} (t : Sess.Tid) (p : PreC a s) (hD : alive2 (s.astatus .D2) = false ∨ s.astatus .D2 = .inSoup)
     (hds : s.disp2Set = false) (hph : mon2Run s.trace2 = 0) :
     InvB2 a (stopV2 a s t) ∧ InvS a (stopV2 a s t) := by
   unfold stopV2
   split
   · rename_i hV
-    obtain ⟨built, qc, cl, tc, ev, cf, we, wv, ty, wq, cc, hc, da, vs⟩ := p
+    obtain ⟨built, qc, cl, tc, ev, cf, we, wv, ty, wq, cc, hc, da, vs, ip, ds, hs⟩ := p
     have hph' : mon2Run ({ (s.cancel2 .V2) with cpc := .waitV2 } : St).trace2
         = phase2 a { (s.cancel2 .V2) with cpc := .waitV2 } := by
       show mon2Run (s.cancel2 .V2).trace2 = 0
       rw [trace2_cancel2]; exact hph
     have hvv : s.astatus .V2 ≠ .waitV := by
       intro h; obtain ⟨_, u, hu⟩ := wv _ h; cases hu
-    rw [cancel2_alive s .V2 hV hvv] at hph' ⊢
+    have hvi : s.astatus .V2 ≠ .inSoup := by
+      intro h; have := (ip _ h).1; cases this
+    rw [cancel2_alive s .V2 hV hvv hvi] at hph' ⊢
     constructor
     · refine ⟨?_, ?_, ?_, ?_, ?_, ?_, ?_, ?_, ?_, ?_, ?_, ?_, hph'⟩ <;> simp only [St.setA] <;> grind [midStage, lateStage]
-    · refine ⟨?_, ?_, ?_, ?_, ?_, ?_, ?_, ?_, ?_, ?_, ?_, ?_, ?_, ?_⟩ <;> simp only [St.setA] <;>
+    · refine ⟨?_, ?_, ?_, ?_, ?_, ?_, ?_, ?_, ?_, ?_, ?_, ?_, ?_, ?_, ?_, ?_, ?_, ?_⟩ <;> simp only [St.setA] <;>
         grind [midStage, lateStage, alive2]
   · rename_i hV
     exact afterStop_K t p hD hds (by simpa using hV) hph
@@ -382,27 +475,35 @@ theorem stopD2_K {a : ACfg} {s : St} (t : Sess.Tid) (p : PreC a s) (hph : mon2Ru
   unfold stopD2
   split
   · rename_i hDa
-    obtain ⟨built, qc, cl, tc, ev, cf, we, wv, ty, wq, cc, hc, da, vs⟩ := p
+    obtain ⟨built, qc, cl, tc, ev, cf, we, wv, ty, wq, cc, hc, da, vs, ip, ds, hs⟩ := p
     have hph' : mon2Run ({ (s.cancel2 .D2) with cpc := .waitD2 } : St).trace2
         = phase2 a { (s.cancel2 .D2) with cpc := .waitD2 } := by
       show mon2Run (s.cancel2 .D2).trace2 = 0
       rw [trace2_cancel2]; exact hph
-    have hDa' : alive2 (s.astatus .D2) = true := by simp at hDa; exact hDa.2
+    have hDa' : alive2 (s.astatus .D2) = true := by simp at hDa; exact hDa.1.2
+    have hdi : s.astatus .D2 ≠ .inSoup := by simp at hDa; exact hDa.2
     have hdv : s.astatus .D2 ≠ .waitV := by
       intro h; obtain ⟨_, u, hu⟩ := wv _ h; cases hu
-    rw [cancel2_alive s .D2 hDa' hdv] at hph' ⊢
+    rw [cancel2_alive s .D2 hDa' hdv hdi] at hph' ⊢
     constructor
     · refine ⟨?_, ?_, ?_, ?_, ?_, ?_, ?_, ?_, ?_, ?_, ?_, ?_, hph'⟩ <;> simp only [St.setA] <;> grind [midStage, lateStage]
-    · refine ⟨?_, ?_, ?_, ?_, ?_, ?_, ?_, ?_, ?_, ?_, ?_, ?_, ?_, ?_⟩ <;> simp only [St.setA] <;>
+    · refine ⟨?_, ?_, ?_, ?_, ?_, ?_, ?_, ?_, ?_, ?_, ?_, ?_, ?_, ?_, ?_, ?_, ?_, ?_⟩ <;> simp only [St.setA] <;>
         grind [midStage, lateStage, alive2]
   · rename_i hDa
-    have hD : alive2 (s.astatus .D2) = false := by
+    have hD : alive2 (s.astatus .D2) = false ∨ s.astatus .D2 = .inSoup := by
       cases h : alive2 (s.astatus .D2) with
-      | false => rfl
-      | true => have := p.da h; simp [this, h] at hDa
+      | false => exact Or.inl rfl
+      | true =>
+        by_cases h2 : s.astatus .D2 = .inSoup
+        · exact Or.inr h2
+        · have := p.da h h2; simp [this, h, h2] at hDa
     have p1 : PreC a { s with disp2Set := false } := by
-      obtain ⟨built, qc, cl, tc, ev, cf, we, wv, ty, wq, cc, hc, da, vs⟩ := p
-      exact ⟨built, qc, cl, tc, ev, cf, we, wv, ty, wq, cc, hc, fun h => by rw [hD] at h; contradiction, vs⟩
+      obtain ⟨built, qc, cl, tc, ev, cf, we, wv, ty, wq, cc, hc, da, vs, ip, ds, hs⟩ := p
+      refine ⟨built, qc, cl, tc, ev, cf, we, wv, ty, wq, cc, hc, ?_, vs, ip, ds, hs⟩
+      intro h h2
+      rcases hD with h' | h'
+      · rw [h'] at h; contradiction
+      · exact absurd h' h2
     exact stopV2_K t p1 hD rfl hph
 
 
@@ -410,7 +511,7 @@ theorem stopD2_K {a : ACfg} {s : St} (t : Sess.Tid) (p : PreC a s) (hph : mon2Ru
 theorem PreC.of_inv {a : ACfg} {s : St} (ib : InvB2 a s) (is : InvS a s) (hb : s.built = true) (hq : s.q2Closed = true)
     (hc : s.cpc ≠ .idle) (hnf : s.cpc ≠ .finished) : PreC a s :=
   ⟨hb, hq, ib.b hc, ib.tc hc, fun h => hnf (ib.ev1 h), fun h => ib.ac3 h hb hc, is.we, is.wv, is.ty, is.wq, is.cc, is.hc, is.da,
-    is.vs⟩
+    is.vs, is.ip, is.ds, is.hs⟩
 
 theorem onSoupClose_K {a : ACfg} {s : St} (t : Sess.Tid) (ib : InvB2 a s) (is : InvS a s) (hidle : s.cpc = .idle)
     (hcl : s.inner.closed = true) (htc : Sess.Obs.tclose ∈ s.inner.trace) :
@@ -421,16 +522,17 @@ theorem onSoupClose_K {a : ACfg} {s : St} (t : Sess.Tid) (ib : InvB2 a s) (is : 
   · -- no application session yet: no close callback on the soup session
     rename_i hb
     have hb' : s.built = false := by simpa using hb
-    have h1 : InvB2 a { s with cpc := .finished } ∧ InvS a { s with cpc := .finished } := by
+    have h1 : InvB2 a { s with cpc := .finished } ∧ InvSg false a { s with cpc := .finished } := by
       obtain ⟨b, tc, bu, q, q', ac1, ac2, ac3, ev1, ev2, ev0, ub, ph⟩ := ib
-      obtain ⟨nb, we, wv, ty, wq, d2, cc, hc, can, v2, dn, vn, da, vs⟩ := is
+      obtain ⟨nb, we, wv, ty, wq, d2, cc, hc, can, v2, dn, vn, da, vs, dnf, ip, ds, hs⟩ := is
       have hph' : mon2Run ({ s with cpc := .finished } : St).trace2 = phase2 a { s with cpc := .finished } := by
         show mon2Run s.trace2 = _
         rw [hph0]; simp [phase2, hb']
       constructor
       · refine ⟨?_, ?_, ?_, ?_, ?_, ?_, ?_, ?_, ?_, ?_, ?_, ?_, hph'⟩ <;> grind [midStage, lateStage]
-      · refine ⟨?_, ?_, ?_, ?_, ?_, ?_, ?_, ?_, ?_, ?_, ?_, ?_, ?_, ?_⟩ <;> grind [midStage, lateStage, alive2]
-    exact innerStep_K _ h1.1 h1.2
+      · refine ⟨?_, ?_, ?_, ?_, ?_, ?_, ?_, ?_, ?_, ?_, ?_, ?_, ?_, ?_, ?_, ?_, ?_, ?_⟩ <;> grind [midStage, lateStage, alive2]
+    obtain ⟨h3, h4⟩ := innerStep_K (.run t) h1.1 h1.2
+    exact d2Return_K h3 h4 (by rw [innerStep_fields2K])
   · rename_i hb
     have hb' : s.built = true := by simpa using hb
     have hq0 : s.q2Closed = false := by
@@ -455,8 +557,11 @@ theorem onSoupClose_K {a : ACfg} {s : St} (t : Sess.Tid) (ib : InvB2 a s) (is : 
           by show ∀ t, s1.astatus t = _ → _; rw [e5]; exact is.wq,
           by show ∀ v, s1.aprog .D2 = _ → alive2 (s1.astatus .D2) = true → _; rw [e5, e6]; exact is.cc,
           by show ∀ v, s1.aprog .D2 = _ → alive2 (s1.astatus .D2) = true → _; rw [e5, e6]; exact is.hc,
-          by show alive2 (s1.astatus .D2) = true → s1.disp2Set = true; rw [e5, e7]; exact is.da,
-          by show s1.astatus .V2 ≠ _; rw [e5]; exact is.vs⟩
+          by show alive2 (s1.astatus .D2) = true → s1.astatus .D2 ≠ _ → s1.disp2Set = true; rw [e5, e7]; exact is.da,
+          by show s1.astatus .V2 ≠ _; rw [e5]; exact is.vs,
+          by show ∀ t, s1.astatus t = _ → t = .D2 ∧ ((∃ v, s1.aprog .D2 = _) ∨ ∃ v, s1.aprog .D2 = _); rw [e5, e6]; exact is.ip,
+          by show s1.astatus .D2 ≠ _; rw [e5]; exact is.ds,
+          by show ∀ v, s1.aprog .D2 = _ ∨ s1.aprog .D2 = _ → alive2 (s1.astatus .D2) = true → s1.astatus .D2 = _; rw [e5, e6]; exact is.hs⟩
       exact stopD2_K t p (by show mon2Run s1.trace2 = 0; rw [e8]; exact hph0)
     apply key
     all_goals first | (split <;> rfl) | skip
@@ -475,9 +580,9 @@ theorem resumeSoupClose_K {a : ACfg} {s : St} (t : Sess.Tid) (ib : InvB2 a s) (i
     have hb : s.built = true := ib.bu (Or.inl (by rw [hc]; rfl))
     have p := PreC.of_inv ib is hb (ib.q hb (by rw [hc]; simp)) (by rw [hc]; simp) (by rw [hc]; simp)
     have p1 : PreC a { s with disp2Set := false } := by
-      obtain ⟨built, qc, cl, tc, ev, cf, we, wv, ty, wq, cc, hc, da, vs⟩ := p
-      exact ⟨built, qc, cl, tc, ev, cf, we, wv, ty, wq, cc, hc, fun h => by rw [hD] at h; contradiction, vs⟩
-    exact stopV2_K t p1 hD rfl (by show mon2Run s.trace2 = 0; rw [ib.ph]; simp [phase2, hc])
+      obtain ⟨built, qc, cl, tc, ev, cf, we, wv, ty, wq, cc, hc, da, vs, ip, ds, hs⟩ := p
+      exact ⟨built, qc, cl, tc, ev, cf, we, wv, ty, wq, cc, hc, fun h _ => by rw [hD] at h; contradiction, vs, ip, ds, hs⟩
+    exact stopV2_K t p1 (Or.inl hD) rfl (by show mon2Run s.trace2 = 0; rw [ib.ph]; simp [phase2, hc])
   · -- resumed after the receive helper ended
     rename_i hc
     have hV : alive2 (s.astatus .V2) = false := by simpa [closerBlocked, hc] using hnb
@@ -492,12 +597,12 @@ theorem resumeSoupClose_K {a : ACfg} {s : St} (t : Sess.Tid) (ib : InvB2 a s) (i
     split
     · have h1 : InvB2 a { s with cpc := .aborted } ∧ InvS a { s with cpc := .aborted } := by
         obtain ⟨b, tc, bu, q, q', ac1, ac2, ac3, ev1, ev2, ev0, ub, ph⟩ := ib
-        obtain ⟨nb, we, wv, ty, wq, d2, cc, hc', can, v2, dn, vn, da, vs⟩ := is
+        obtain ⟨nb, we, wv, ty, wq, d2, cc, hc', can, v2, dn, vn, da, vs, dnf, ip, ds, hs⟩ := is
         have hub := ub (Or.inl ⟨_, hc⟩)
         have hph' : mon2Run ({ s with cpc := .aborted } : St).trace2 = phase2 a { s with cpc := .aborted } := hph1
         constructor
         · refine ⟨?_, ?_, ?_, ?_, ?_, ?_, ?_, ?_, ?_, ?_, ?_, ?_, hph'⟩ <;> grind [midStage, lateStage]
-        · refine ⟨?_, ?_, ?_, ?_, ?_, ?_, ?_, ?_, ?_, ?_, ?_, ?_, ?_, ?_⟩ <;> grind [midStage, lateStage, alive2]
+        · refine ⟨?_, ?_, ?_, ?_, ?_, ?_, ?_, ?_, ?_, ?_, ?_, ?_, ?_, ?_, ?_, ?_, ?_, ?_⟩ <;> grind [midStage, lateStage, alive2]
       exact innerStep_K _ h1.1 h1.2
     · split
       · have p := PreC.of_inv ib is hb (ib.q hb (by rw [hc]; simp)) (by rw [hc]; simp) (by rw [hc]; simp)
@@ -505,12 +610,12 @@ theorem resumeSoupClose_K {a : ACfg} {s : St} (t : Sess.Tid) (ib : InvB2 a s) (i
         exact endCb_K t p hD hds (is.vn hb (by rw [hc]; rfl)) (ib.ac2 hb (by rw [hc]; rfl)) (ib.ub (Or.inl ⟨_, hc⟩)).1 hph1
       · rename_i k'
         obtain ⟨b, tc, bu, q, q', ac1, ac2, ac3, ev1, ev2, ev0, ub, ph⟩ := ib
-        obtain ⟨nb, we, wv, ty, wq, d2, cc, hc', can, v2, dn, vn, da, vs⟩ := is
+        obtain ⟨nb, we, wv, ty, wq, d2, cc, hc', can, v2, dn, vn, da, vs, dnf, ip, ds, hs⟩ := is
         have hub := ub (Or.inl ⟨_, hc⟩)
         have hph' : mon2Run ({ s with cpc := .user k' } : St).trace2 = phase2 a { s with cpc := .user k' } := hph1
         constructor
         · refine ⟨?_, ?_, ?_, ?_, ?_, ?_, ?_, ?_, ?_, ?_, ?_, ?_, hph'⟩ <;> grind [midStage, lateStage]
-        · refine ⟨?_, ?_, ?_, ?_, ?_, ?_, ?_, ?_, ?_, ?_, ?_, ?_, ?_, ?_⟩ <;> grind [midStage, lateStage, alive2]
+        · refine ⟨?_, ?_, ?_, ?_, ?_, ?_, ?_, ?_, ?_, ?_, ?_, ?_, ?_, ?_, ?_, ?_, ?_, ?_⟩ <;> grind [midStage, lateStage, alive2]
   · exact ⟨ib, is⟩
 
 theorem construct_K {a : ACfg} {s : St} (ib : InvB2 a s) (is : InvS a s) :
@@ -525,7 +630,7 @@ theorem construct_K {a : ACfg} {s : St} (ib : InvB2 a s) (is : InvS a s) :
       | idle => rfl
       | _ => have := ib.b (by rw [h]; simp); rw [hcl] at this; contradiction
     obtain ⟨b, tc, bu, q, q', ac1, ac2, ac3, ev1, ev2, ev0, ub, ph⟩ := ib
-    obtain ⟨nb, we, wv, ty, wq, d2, cc, hc', can, v2, dn, vn, da, vs⟩ := is
+    obtain ⟨nb, we, wv, ty, wq, d2, cc, hc', can, v2, dn, vn, da, vs, dnf, ip, ds, hs⟩ := is
     have hph0 : mon2Run s.trace2 = 0 := by rw [ph]; simp [phase2, hidle]
     simp only
     split
@@ -536,14 +641,14 @@ theorem construct_K {a : ACfg} {s : St} (ib : InvB2 a s) (is : InvS a s) :
       constructor
       · refine ⟨?_, ?_, ?_, ?_, ?_, ?_, ?_, ?_, ?_, ?_, ?_, ?_, hph'⟩ <;> simp only [St.spawn2, St.setA, St.setP] <;>
           grind [midStage, lateStage]
-      · refine ⟨?_, ?_, ?_, ?_, ?_, ?_, ?_, ?_, ?_, ?_, ?_, ?_, ?_, ?_⟩ <;> simp only [St.spawn2, St.setA, St.setP] <;>
+      · refine ⟨?_, ?_, ?_, ?_, ?_, ?_, ?_, ?_, ?_, ?_, ?_, ?_, ?_, ?_, ?_, ?_, ?_, ?_⟩ <;> simp only [St.spawn2, St.setA, St.setP] <;>
           grind [midStage, lateStage, alive2, allowed2]
     · have hph' : mon2Run ({ s with built := true } : St).trace2 = phase2 a { s with built := true } := by
         show mon2Run s.trace2 = _
         rw [hph0]; simp [phase2, hidle]
       constructor
       · refine ⟨?_, ?_, ?_, ?_, ?_, ?_, ?_, ?_, ?_, ?_, ?_, ?_, hph'⟩ <;> grind [midStage, lateStage]
-      · refine ⟨?_, ?_, ?_, ?_, ?_, ?_, ?_, ?_, ?_, ?_, ?_, ?_, ?_, ?_⟩ <;> grind [midStage, lateStage, alive2]
+      · refine ⟨?_, ?_, ?_, ?_, ?_, ?_, ?_, ?_, ?_, ?_, ?_, ?_, ?_, ?_, ?_, ?_, ?_, ?_⟩ <;> grind [midStage, lateStage, alive2]
   · exact ⟨ib, is⟩
 
 end NasdaqModel.App
